@@ -43,7 +43,8 @@ def run(pid,n,pre='seed'):
     return {'demo':demo,'existing':exres,'existing_bad_lines':bad[:6],'crates':crates}
 for arg in sys.argv[1:]:
     pre='seed'
-    if arg.startswith('2:'): pre='seed2'; arg2=arg[2:]
+    m=re.match(r'(\d+):(.*)',arg)
+    if m: pre='seed'+m.group(1); arg2=m.group(2)
     else: arg2=arg
     pid,n=arg2.split('/')
     try: r=run(pid,n,pre)
